@@ -2,17 +2,17 @@
 # seed.sh <property> <name> <worktree>: confirm a sub-agent's change in its scratch worktree, store it under
 # /verif/seeded/<name>/, run ./check <property> with it applied to /repo, undo, remove the worktree.
 set -u
-PID=$1; NAME=$2; WT=$3
+PID=$1; NAME=$2; WT=$3; FEAT=${SEED_FEATURES:+--features $SEED_FEATURES}
 D=/verif/seeded/$NAME
 mkdir -p $D
 git -C $WT diff > $D/patch.diff
 cp $WT/tests/demo_mutant.rs $D/demo_mutant.rs 2>/dev/null
 cd $WT
-echo "== existing suite with the change"; (cargo test --offline --no-fail-fast 2>&1 | grep -E "^test result|Running|error\[" | grep -v demo_mutant | grep -c "test result: ok") > $D/existing_ok_count.txt; cat $D/existing_ok_count.txt
-cargo test --offline --no-fail-fast 2>&1 | grep -E "^test result" | grep -v " 0 failed" | head -3 > $D/with_change_failing_targets.txt
-echo "== demo with the change (must fail)"; cargo test --offline --test demo_mutant > $D/demo_with.log 2>&1; WITH=$?; echo rc=$WITH
+echo "== existing suite with the change"; (cargo test --offline --no-fail-fast $FEAT 2>&1 | grep -E "^test result|Running|error\[" | grep -v demo_mutant | grep -c "test result: ok") > $D/existing_ok_count.txt; cat $D/existing_ok_count.txt
+cargo test --offline --no-fail-fast $FEAT 2>&1 | grep -E "^test result" | grep -v " 0 failed" | head -3 > $D/with_change_failing_targets.txt
+echo "== demo with the change (must fail)"; cargo test --offline $FEAT --test demo_mutant > $D/demo_with.log 2>&1; WITH=$?; echo rc=$WITH
 git stash -q
-echo "== demo without the change (must pass)"; cargo test --offline --test demo_mutant > $D/demo_without.log 2>&1; WITHOUT=$?; echo rc=$WITHOUT
+echo "== demo without the change (must pass)"; cargo test --offline $FEAT --test demo_mutant > $D/demo_without.log 2>&1; WITHOUT=$?; echo rc=$WITHOUT
 git stash pop -q
 cd /verif
 git -C /repo apply $D/patch.diff && { ./check $PID > $D/check_output.txt 2>&1; CHK=$?; } ; git -C /repo checkout -- . ; git -C /repo status --short | head -3
@@ -22,7 +22,7 @@ import json
 json.dump({"property":"$PID","name":"$NAME","demo_fails_with_change":$WITH!=0,"demo_passes_without_change":$WITHOUT==0,
  "existing_suite_targets_ok_with_change":int(open("$D/existing_ok_count.txt").read().strip() or 0),
  "check_cmd":"./check $PID","check_exit":$CHK,
- "ran":["cargo test --offline --no-fail-fast (with change)","cargo test --offline --test demo_mutant (with / without via git stash)","git -C /repo apply patch.diff; ./check $PID; git -C /repo checkout -- ."]},
+ "ran":["cargo test --offline --no-fail-fast (with change)","cargo test --offline $FEAT --test demo_mutant (with / without via git stash)","git -C /repo apply patch.diff; ./check $PID; git -C /repo checkout -- ."]},
  open("$D/meta.json","w"),indent=1)
 PY
 rm -f $D/existing_ok_count.txt
